@@ -215,7 +215,9 @@ def shared(chk, part="core"):
        divergences, samples, design_violations"""
     key = tree_key({"tier": chk.tier, "seed": chk.seed, "part": part, "v": 10})
     os.makedirs(CACHE, exist_ok=True)
-    path = os.path.join(CACHE, "%s-%s-%s.json.gz" % (part, chk.tier, key))
+    # one entry per (part, tier, repository location): runs against a mutated copy must not evict /repo's entry
+    prefix = "%s-%s-%s-" % (part, chk.tier, hashlib.sha256(REPO.encode()).hexdigest()[:8])
+    path = os.path.join(CACHE, "%s%s.json.gz" % (prefix, key))
     lock = open(os.path.join(CACHE, "%s-%s.lock" % (part, chk.tier)), "w")
     fcntl.flock(lock, fcntl.LOCK_EX)
     try:
@@ -226,7 +228,7 @@ def shared(chk, part="core"):
             return res
         res = _compute(chk, part)
         for old in os.listdir(CACHE):
-            if old.startswith("%s-%s-" % (part, chk.tier)) and old.endswith(".json.gz"):
+            if old.startswith(prefix) and old.endswith(".json.gz"):
                 os.unlink(os.path.join(CACHE, old))
         with gzip.open(path + ".tmp", "wt") as fh:
             json.dump(res, fh)
